@@ -177,11 +177,18 @@ func (env *Env) exec(n *Node) (reflect.Value, error) {
 	return res, nil
 }
 
+// InterpError is the panic value raised inside a DSL closure when the
+// program cannot be expressed as Go source (arity, static type, undefined
+// variable): it is a defect of the program, not of the DSL.
+type InterpError struct{ Err error }
+
+func (e *InterpError) Error() string { return e.Err.Error() }
+
 func (env *Env) closure(body []*Node) func() {
 	return func() {
 		for _, c := range body {
 			if _, err := env.exec(c); err != nil {
-				panic(err)
+				panic(&InterpError{Err: err})
 			}
 		}
 	}
